@@ -510,3 +510,38 @@ def check_generated(ctx, rep, rule=RULE + '.f'):
             else:
                 rep.holds(rule, mod.base, 'visitor', 'every labelled alternative of {} has a visit method'.format(g.base))
     return n
+
+
+def check_paren_independence(ctx, rep, rule=RULE + '.d'):
+    """precedence-aware printers: whether one operand is parenthesised must depend on that operand only.  Each wrap
+    `xk = '({})'.format(xk)` is guarded by its own flag and by nothing derived from the other operand."""
+    n = 0
+    for spec in ('regexp.print_regexp_simple', 'regexp.print_binary_operation'):
+        f = ctx.prog.func(spec)
+        fx = ctx.facts(f)
+        wraps = []
+        for st in walk_no_nested(f.node):
+            if isinstance(st, ast.Assign) and len(st.targets) == 1 and isinstance(st.targets[0], ast.Name) and isinstance(st.value, ast.Call) \
+                    and isinstance(st.value.func, ast.Attribute) and st.value.func.attr == 'format' and isinstance(st.value.func.value, ast.Constant) \
+                    and st.value.func.value.value == '({})' and st.value.args and u(st.value.args[0]) == st.targets[0].id:
+                wraps.append(st)
+        # flags: n1, n2 = needs_parentheses_binary(x)
+        flags = {}
+        for st in walk_no_nested(f.node):
+            if isinstance(st, ast.Assign) and isinstance(st.targets[0], ast.Tuple) and len(st.targets[0].elts) == 2 and isinstance(st.value, ast.Call):
+                a, b = (u(x) for x in st.targets[0].elts)
+                flags[a] = 0
+                flags[b] = 1
+        by_branch = {}
+        for w in wraps:
+            n += 1
+            atoms = [a for a in fx.guard_atoms(fx.cfg.n_of(w)) if a[0] == 'truthy' and a[1] in flags]
+            own = [a for a in atoms if a[3] is True]
+            foreign = [a for a in atoms if a[3] is False]
+            if len(own) == 1 and not foreign:
+                rep.holds(rule, f, w, 'operand {} is parenthesised under its own flag {} only'.format(w.targets[0].id, own[0][1]))
+            elif foreign:
+                rep.violates(rule, f, w, 'operand {} is parenthesised only when the flag {} of the other operand is false: when both operands need parentheses one of them is printed without, and the text re-parses as a different expression'.format(w.targets[0].id, foreign[0][1]))
+            else:
+                rep.undecided(rule, f, w, 'guard of the parenthesisation not recognised')
+    return n
